@@ -234,6 +234,12 @@ def r4_agreement(chk, prog):
                 % (sorted(written), sorted(wanted), sorted(written ^ wanted)))
     chk.require(written == fetched_as, "R4", cf.fn, "same-name-for-fetch-and-store",
                 "cache_file_from_transport fetches %s but stores %s" % (sorted(fetched_as), sorted(written)))
+    # the copy is written on every non-error path
+    wbb = [bb for bb, t in cf.calls("tokio::io::util::async_write_ext::AsyncWriteExt::write_all")]
+    errb = [bb for bb, t in cf.calls("core::ops::try_trait::FromResidual::from_residual")]
+    pw = cf.cfg.witness_path(cf.cfg.return_blocks(), (), removed_blocks=wbb + errb)
+    chk.require(bool(wbb) and pw is None, "R4", cf.fn, "always-stores",
+                "cache_file_from_transport can return without having written the fetched bytes", path=cf.describe_path(pw))
     # the bytes written are the bytes fetched
     for bb, t in cf.calls("tokio::io::util::async_write_ext::AsyncWriteExt::write_all"):
         og = deep_origins(cf, t.args[1], 4)
